@@ -279,7 +279,10 @@ def forward_cases(ctx, lines, expect):
                 # one step of the output grid: the scale for int8, the float8 spacing at the largest magnitude otherwise
                 step = float(qm.output_scale) if aq == "qint8" else float(max(out.dequantize().abs().max(), refq.dequantize().abs().max())) * (2.0 ** -2 if aq == "qfloat8_e5m2" else 2.0 ** -3) + 1e-30
                 d = (out.dequantize().double() - refq.dequantize().double()).abs().max()
-                if float(d) > step * 1.001 + 2.0 ** -8 * float(out.dequantize().abs().max()):
+                # |fl(s c) - fl(s c')| <= s |c - c'| + u (|s c| + |s c'|): one step plus the rounding of the two dequantized values
+                u_out = {torch.float32: 2.0 ** -24, torch.float16: 2.0 ** -11, torch.bfloat16: 2.0 ** -8}[dt]
+                mag_out = float(max(out.dequantize().abs().max(), refq.dequantize().abs().max()))
+                if float(d) > step * 1.001 + 2 * u_out * mag_out * 1.001 + 2.0 ** -23:
                     sig = "C08:linear-quantized-output-more-than-one-step-off"
                     if "float8" in wq and "float8" in aq and dt == torch.float16:
                         sig = "C08:linear-float8xfloat8-in-float16-overflow"
